@@ -920,7 +920,8 @@ def part2(env, E, static):
         if status == "bad":
             inf_stat["bad"] += 1
             k = elem_key_of(d["blame"][-1].split()[-1], keys)
-            failing[k].append((INF_VALUES[vi][0] + FORMS[fi][1] + "".join(seq) + FORMS[fi][2], FORMS[fi][0], d, []))
+            # shown (and run end to end) with a finite look at the reference: its first items
+            failing[k].append((INF_VALUES[vi][0] + FORMS[fi][1] + "".join(seq) + FORMS[fi][2] + "8Ẏ", FORMS[fi][0], d, []))
     env.note("part2_infinite_values", {"programs": len(inf_items), "values": [v for v, _ in INF_VALUES], "alphabet": INF_ALPHA,
                                        "compared_prefix": INF_CAP, "outcomes": dict(inf_stat),
                                        "tokens_that_do_not_finish": sorted(f"{INF_VALUES[vi][0]} {a}" for vi, a in hangs)})
@@ -931,7 +932,11 @@ def part2(env, E, static):
         if ins:
             inp["inputs"] = ins
         from vlib import runprog
-        e2e = runprog.run(prog, inputs=ins if ins and not any("LazyList" in i for i in ins) else ["2", "3"])
+        def _e2e(_):
+            return runprog.run(prog, inputs=ins if ins and not any("LazyList" in i for i in ins) else ["2", "3"])
+        e2e = own_alarm(_e2e, None, 10.0)
+        if not isinstance(e2e, dict):
+            e2e = {"out": "(the end-to-end run did not finish in 10 s)"}
         msg = (f"copy program {prog}{' with input ' + ' '.join(ins) if ins else ''}: the untouched reference should be {d['want']}, is {', '.join(d['got'])} "
                f"(blamed element {k}; {len(lst)} failing programs; run end to end the program prints {e2e['out'].strip()!r})")
         env.fail(inp, msg, cls=f"C10:{k}")
